@@ -189,6 +189,10 @@ def gen_session(r, name, kind=None):
         victims = [olds[-1]] if r.random() < 0.8 else []
         victims += [o for o in olds[:-1] if r.random() < 0.3]
         ops = ["del %s %s" % v for v in victims] + [h_op(r, refs) for _ in range(r.choice([1, 2, 4]))]
+        # records of old elements rewritten through descriptor reuse (what Vdetach / VSdetach do), shorter, equal or longer
+        for v in [o for o in olds if o not in victims]:
+            if r.random() < 0.5:
+                ops.insert(r.randrange(len(ops) + 1), "rw %s %s %s" % (v[0], v[1], hexs(rbytes(r, r.choice([1, 3, 8, 20])))))
     elif kind == "GR":
         ops = [gr_op(r, names) for _ in range(r.choice([1, 2, 3]))]
     elif kind == "AN":
@@ -199,6 +203,8 @@ def gen_session(r, name, kind=None):
         for _ in range(r.choice([1, 2, 4])):
             ops.append(v_op(r, names) if r.random() < 0.5 else h_op(r, refs))
             ops.append("vgadd %d %d %d" % (r.randrange(8), r.choice([1, 2, 3]), r.randrange(1, 30000)))
+            if r.random() < 0.4:
+                ops.append("vsattr %d %d" % (r.randrange(8), r.randrange(1, 30000)))
     else:
         pool = [lambda: h_op(r, refs), lambda: v_op(r, names), lambda: sd_op(r, names), lambda: gr_op(r, names),
                 lambda: an_op(r, refs)]
@@ -298,7 +304,7 @@ def parse_replay(lines):
 def classify_ops(ops):
     """kind implied by the operations themselves (used for replays / shrunk sessions)"""
     ks = set(o.split()[0] for o in ops)
-    if ks & {"sds", "gr", "an", "vgadd", "sdsnd", "sdgattr", "sdsu", "del"}:
+    if ks & {"sds", "gr", "an", "vgadd", "sdsnd", "sdgattr", "sdsu", "del", "rw", "vsattr"}:
         return "META"
     return "HV"
 
@@ -369,6 +375,8 @@ def model_ops(s):
             out.append("putn %s %d %s" % (t[1], 0 if t[2] == "-" else len(t[2]) // 2, t[2]))
         elif t[0] == "del":
             out.append(o)
+        elif t[0] == "rw":
+            out.append("rw %s %s %d %s" % (t[1], t[2], 0 if t[3] == "-" else len(t[3]) // 2, t[3]))
         elif t[0] == "get":
             out.append("get")
         elif t[0] == "cp":
